@@ -12,33 +12,37 @@ Only property theorems live here; helper lemmas and the simulation relation `R` 
 `Lemmas/Interp.lean`.
 -/
 import PdfVerif.Lemmas.Interp
+import PdfVerif.Lemmas.ContentLex
 
 namespace PdfVerif.Props.C05
 open PdfVerif PdfVerif.Content PdfVerif.Interp PdfVerif.Gen.Utils PdfVerif.Gen.Interp PdfVerif.TextModel
+open PdfVerif.ContentLex
 
 /-! ## Glyphs: interpreter = text model, for every program of the domain -/
 
 /-- **One instruction** (operands + operator) of the domain: the simulation relation `R` between
 the interpreter state and the text-model state is preserved and the same glyphs are reported,
 whatever form runners are used as long as they agree. -/
-theorem C05_step (env : Env) (rfM : Form → Matrix → Res → List Glyph × Bool)
-    (rfS : Form → GS → Res → Option (List Glyph)) (hrf : Agree rfM rfS) (m : MState) (s s' : SState) (i : Instr)
+theorem C05_step (env : Env) (rfM : Form → MState → List Glyph × Bool)
+    (rfS : Form → GS → Res → Option (List Glyph)) (hrf : Agree env rfM rfS) (m : MState) (s s' : SState) (i : Instr)
     (gl : List Glyph) (hR : R env m s) (h : step env rfS s i = some (s', gl)) :
     R env (execToks env rfM m i.toks).1 s' ∧ (execToks env rfM m i.toks).2 = gl :=
   step_sim env rfM rfS hrf m s s' i gl hR h
 
-/-- **Form XObjects**, any nesting: whatever graphics state the caller hands over, a form the
-text model gives a meaning to (`q Matrix cm … Q` with its own resources) produces the same glyphs
-in the interpreter, within the nesting budget. -/
-theorem C05_forms (env : Env) (fuel : Nat) (fm : Form) (gs : GS) (res : Res) (gl : List Glyph)
-    (h : TextModel.runForm env fuel fm gs res = some gl) :
-    Interp.runForm env fuel fm gs.ctm res = (gl, true) :=
-  runForm_agree env fuel fm gs res gl h
+/-- **Form XObjects**, any nesting: a form inherits the caller's graphics state (8.10.1). From
+related initial states — the form interpreter `do_Do` prepares (Matrix × CTM, the caller's text
+state, colours and colour spaces, empty stacks) against the caller's graphics state with
+`Matrix cm` applied — a form the text model gives a meaning to produces the same glyphs in the
+interpreter, within the nesting budget. -/
+theorem C05_forms (env : Env) (fuel : Nat) (fm : Form) (m0 : MState) (gs : GS) (res : Res) (gl : List Glyph)
+    (hR : R env m0 ⟨gs, [], none, res⟩) (h : TextModel.runForm env fuel fm gs res = some gl) :
+    Interp.runForm env fuel fm m0 = (gl, true) :=
+  runForm_agree env fuel fm m0 gs res gl hR h
 
 /-- **Splitting the page content into several streams** (at token boundaries) changes nothing:
 interpreting the streams one after the other is interpreting their concatenation — same final
 state (operand stack included), same glyphs. -/
-theorem C05_split (env : Env) (rf : Form → Matrix → Res → List Glyph × Bool) (st : MState)
+theorem C05_split (env : Env) (rf : Form → MState → List Glyph × Bool) (st : MState)
     (streams : List (List Tok)) :
     execStreams env rf st streams = execToks env rf st streams.flatten := by
   induction streams generalizing st with
@@ -68,14 +72,62 @@ theorem C05_program (env : Env) (fuel : Nat) (ctm : Matrix) (res : Res) (streams
   simp only [List.map_nil, List.nil_append] at hsound
   unfold Interp.runPage
   rw [C05_split, hsound]
-  exact stream_sim env (Interp.runForm env fuel) (TextModel.runForm env fuel) (runForm_agree env fuel) ctm res is gl h
+  exact stream_sim env (Interp.runForm env fuel) (TextModel.runForm env fuel) (runForm_agree env fuel)
+    (MState.init ctm res) (GS.init ctm) res is gl (R_init env ctm res) h
+
+/-! ## From bytes: the split theorem over the lexer model of C14 -/
+
+/-- `PDFContentParser` over a `Contents` array — one scanner whose state survives every stream
+boundary, positions restarting, a newline flushed at the very end — delivers exactly the tokens
+of the concatenated data (`Lexer.specLex`, for which C14 proves `run = specLex` at every buffer
+size). -/
+theorem C05_lex_streams (streams : List Bytes) : lexStreams streams = vals (Lexer.specLex streams.flatten) :=
+  lexStreams_eq streams
+
+/-- **Splitting the bytes** of the page content over several streams — at white space, between
+tokens, or anywhere else — yields the same token-level program, hence (with `C05_split`) the same
+interpreter run. -/
+theorem C05_split_bytes (s1 s2 : List Bytes) (h : s1.flatten = s2.flatten) : contentToks s1 = contentToks s2 := by
+  unfold contentToks
+  rw [lexStreams_eq, lexStreams_eq, h]
+
+/-- ISO 32000-1 7.8.2 reads every stream of a `Contents` array on its own and allows cuts at token
+boundaries only. At such a cut (the scanner is between two tokens after `a`: what white space
+guarantees) both readings coincide: the tokens of `a ++ b` are the tokens of `a` followed by the
+tokens of `b`, each lexed from the initial state. -/
+theorem C05_split_at_token_boundary (a b : Bytes) (h : Between (Lexer.foldBytes Lexer.St.init a 0).1) :
+    vals (Lexer.foldBytes Lexer.St.init (a ++ b) 0).2 =
+      vals (Lexer.foldBytes Lexer.St.init a 0).2 ++ vals (Lexer.foldBytes Lexer.St.init b 0).2 :=
+  (lex_cut_between a b h).1
+
+/-- … and white space does guarantee it: when the first stream ends with a space or a newline
+that follows a complete number, keyword/operator, name or delimiter (or other white space), reading
+the two streams independently is reading their concatenation. -/
+theorem C05_split_at_white_space (a b : Bytes) (c : UInt8) (hc : c = 32 ∨ c = 10)
+    (hm : let st := (Lexer.foldBytes Lexer.St.init a 0).1
+          st.mode = .main ∨ st.mode = .keyword ∨ st.mode = .number ∨ st.mode = .literal ∨ st.mode = .wclose) :
+    vals (Lexer.foldBytes Lexer.St.init ((a ++ [c]) ++ b) 0).2 =
+      vals (Lexer.foldBytes Lexer.St.init (a ++ [c]) 0).2 ++ vals (Lexer.foldBytes Lexer.St.init b 0).2 := by
+  refine (lex_cut_between (a ++ [c]) b ?_).1
+  rw [Lexer.foldBytes_append]
+  simp only [Lexer.foldBytes]
+  exact between_after_space _ c _ hc hm
+
+/-- **The property from the bytes on**: when the byte-level front end (lexer model + assembler)
+turns the streams into the program `is` and the text model gives it the meaning `gl`, the
+interpreter run on those tokens reports exactly `gl`. -/
+theorem C05_program_bytes (env : Env) (fuel : Nat) (ctm : Matrix) (res : Res) (streams : List Bytes)
+    (toks : List Tok) (is : List Instr) (gl : List Glyph) (hlex : contentToks streams = some toks)
+    (hparse : parseInstrs toks [] = (is, [])) (h : TextModel.runPage env fuel ctm res is = some gl) :
+    (Interp.runPage env fuel ctm res [toks]).2 = gl ∧ (Interp.runPage env fuel ctm res [toks]).1.fuelOk = true :=
+  C05_program env fuel ctm res [toks] is gl (by simpa using hparse) h
 
 /-! ## The caller's state after a form is what it was before -/
 
 /-- **Form frame** (interpreter): after `Do` the interpreter state of the caller is unchanged —
 CTM, text state, colours, colour spaces, graphics stack, operand stack, resources — and the device
 CTM is the caller's CTM again; only the budget flag can change. -/
-theorem C05_form_frame (env : Env) (rf : Form → Matrix → Res → List Glyph × Bool) (m : MState) (x : Obj) :
+theorem C05_form_frame (env : Env) (rf : Form → MState → List Glyph × Bool) (m : MState) (x : Obj) :
     (call env rf m .Do [x]).1 = { m with dctm := (call env rf m .Do [x]).1.dctm, fuelOk := (call env rf m .Do [x]).1.fuelOk } ∧
     (m.dctm = m.ctm → (call env rf m .Do [x]).1.dctm = m.ctm) := by
   cases x with
@@ -112,7 +164,7 @@ theorem C05_form_frame_spec (env : Env) (rf : Form → GS → Res → Option (Li
 of the wrong type (no booleans, no excess operands) leaves the interpreter exactly in the state it
 was in and shows nothing.  `gs` only supplies the current number of colour components for
 `sc/scn/SC/SCN`. -/
-theorem C05_illtyped (env : Env) (rf : Form → Matrix → Res → List Glyph × Bool) (m : MState) (gs : GS) (i : Instr)
+theorem C05_illtyped (env : Env) (rf : Form → MState → List Glyph × Bool) (m : MState) (gs : GS) (i : Instr)
     (tys : List Ty) (hsig : sig gs i.op = some tys) (hlen : i.args.length ≤ tys.length) (hb : NoBool i.args)
     (hw : wellTyped tys i.args = false) (hargs : m.argstack = [])
     (hn : m.ncs.2 = gs.fillN) (hs : m.scs.2 = gs.strokeN)
@@ -132,19 +184,41 @@ theorem C05_illtyped_spec (env : Env) (rf : Form → GS → Res → Option (List
 
 /-! ## The rules of 9.3–9.4, stated on the interpreter alone -/
 
-/-- Showing one string: the pen moves by `tx = (w0·Tfs + Tc + Tw?)·Th` per glyph — character
-spacing after every glyph, also the last one (the `needcharspace` defect of the pinned code). -/
-theorem C05_string_displacement (f : Font) (M : Matrix) (gs : GS) (y x : Rat) (codes : List Nat) :
+/-- Showing one string, horizontal writing: the pen moves by `tx = (w0·Tfs + Tc + Tw?)·Th` per
+glyph — character spacing after every glyph, also the last one (the `needcharspace` defect of the
+pinned code); word spacing only for single-byte fonts. -/
+theorem C05_string_displacement (f : Font) (M : Matrix) (gs : GS) (y x : Rat) (codes : List Nat)
+    (hv : f.vertical = false) :
     showCodes f gs (translate_matrix M (x, y)) codes =
       (translate_matrix M
         ((renderCodes f (mult_matrix M gs.ctm) gs.Tfs (rs_scaling gs.Th) (rs_charspace gs.Tc (rs_scaling gs.Th))
-            (rs_wordspace gs.Tw (rs_scaling gs.Th)) gs.Trise gs.fill y x codes).1, y),
+            (wsOf f gs) gs.Trise gs.fill y x codes).1, y),
        (renderCodes f (mult_matrix M gs.ctm) gs.Tfs (rs_scaling gs.Th) (rs_charspace gs.Tc (rs_scaling gs.Th))
-            (rs_wordspace gs.Tw (rs_scaling gs.Th)) gs.Trise gs.fill y x codes).2) :=
-  renderCodes_showCodes f M gs y codes x
+            (wsOf f gs) gs.Trise gs.fill y x codes).2) :=
+  renderCodes_showCodes f M gs y codes hv x
+
+/-- Vertical writing (composite fonts): the pen moves *down the y axis* by `ty = w1·Tfs + Tc` per
+glyph, **not** scaled by Th (`render_string_vertical` after the fix; the pinned code multiplied the
+advance, Tc and TJ adjustments by Tz/100). -/
+theorem C05_string_displacement_vertical (f : Font) (M : Matrix) (gs : GS) (y x : Rat) (codes : List Nat)
+    (hv : f.vertical = true) (hm : f.multibyte = true) :
+    showCodes f gs (translate_matrix M (x, y)) codes =
+      (translate_matrix M (x,
+        (renderCodesV f (mult_matrix M gs.ctm) gs.Tfs (rs_scaling gs.Th) (rs_charspace_v gs.Tc (rs_scaling gs.Th))
+            (wsOf f gs) gs.Trise gs.fill x y codes).1),
+       (renderCodesV f (mult_matrix M gs.ctm) gs.Tfs (rs_scaling gs.Th) (rs_charspace_v gs.Tc (rs_scaling gs.Th))
+            (wsOf f gs) gs.Trise gs.fill x y codes).2) :=
+  renderCodesV_showCodes f M gs x codes hv hm y
+
+/-- Type 3 fonts: the scales pdfminer takes from the FontMatrix (`apply_matrix_norm`, regenerated
+from `PDFType3Font.__init__`) are its `a` and `d` entries, i.e. a glyph-space displacement `(w, 0)`
+becomes `w·a` in text space (9.6.5) whatever the skew terms are; all other fonts use 1/1000. -/
+theorem C05_font_scale (f : Font) : fontHScale f = f.hscale ∧ fontVScale f = f.vscale :=
+  fontScale_eq f
 
 /-- The glyph `LTChar.__init__` builds is the glyph of the text model: matrix `Tm × CTM`,
-advance `w0·Tfs·Th`, box of `[0, d+Trise, adv, d+Trise+Tfs]` under that matrix. -/
+advance `w0·Tfs·Th` (vertical writing: `w1·Tfs`), the glyph box under that matrix — for simple,
+Type 3 and CID fonts in both writing modes. -/
 theorem C05_glyph (f : Font) (M : Matrix) (gs : GS) (x y : Rat) (c : Nat) :
     ltchar (translate_matrix (mult_matrix M gs.ctm) (x, y)) f gs.Tfs (rs_scaling gs.Th) gs.Trise c gs.fill
       = observe (mult_matrix (translate_matrix M (x, y)) gs.ctm) f gs c :=
@@ -175,24 +249,45 @@ theorem C05_program_any_budget (env : Env) (fuel k : Nat) (ctm : Matrix) (res : 
       (Interp.runPage env (fuel + k) ctm res streams).1.fuelOk = true :=
   C05_program env (fuel + k) ctm res streams is gl hparse (C05_fuel_stable env fuel k ctm res is gl h)
 
+/-- **A stated budget always suffices**: when every form has its own resource dictionary naming
+only earlier forms of the table (an acyclic `Do` graph), a budget of `env.forms.length` — linear in
+the size of the document — is never exhausted, for any page program at all (in or outside the
+domain of the text model). -/
+theorem C05_budget_suffices (env : Env) (hr : Ranked env) (fuel : Nat) (hfuel : env.forms.length ≤ fuel)
+    (ctm : Matrix) (res : Res) (streams : List (List Tok)) :
+    (Interp.runPage env fuel ctm res streams).1.fuelOk = true := by
+  unfold Interp.runPage
+  rw [C05_split]
+  refine (execToks_inv env (Interp.runForm env fuel) res ?_ streams.flatten (MState.init ctm res) rfl rfl).2
+  intro n j fm hj hfm st0 hst0 hres0
+  have hjl : j < env.forms.length := by
+    rcases Nat.lt_or_ge j env.forms.length with h | h
+    · exact h
+    · rw [List.getElem?_eq_none h] at hfm; simp at hfm
+  refine runForm_budget env hr j fm st0 fuel hfm ?_ hst0 (by omega)
+  obtain ⟨r, hr1, _⟩ := hr j fm hfm
+  rw [hres0, hr1]; rfl
+
 /-! ## Non-vacuity: the hypotheses are met by non-trivial instances -/
 
-private def exFont : Font := ⟨"VfD0", 32, [250, 500, 504, 508], 300, -200⟩
+private def exFont : Font := ⟨"VfD0", 32, [250, 500, 504, 508], 300, -200, none, false, false, [], 880⟩
 
-/-- A form: prologue, then `BT 1 2 Td (!) Tj ET`. -/
+/-- An Identity-V CID font: w1y = −1000 for CIDs 1–2 (position vector (500, 880)), DW2 = [880 −900]. -/
+private def exFontV : Font := ⟨"VfV0", 1, [-1000, -1000], -900, -120, none, true, true, [(500, 880), (500, 880)], 880⟩
+
+/-- A form that relies on what it inherits (font, size, fill colour): `BT 1 2 Td (!) Tj ET`. -/
 private def exFormProg : List Instr :=
-  [⟨.g, [.num (1/2)]⟩, ⟨.G, [.num 0]⟩, ⟨.Tc, [.num 0]⟩, ⟨.Tw, [.num 0]⟩, ⟨.Tz, [.num 100]⟩, ⟨.TL, [.num 0]⟩,
-   ⟨.Tf, [.name "F1", .num 8]⟩, ⟨.Tr, [.num 0]⟩, ⟨.Ts, [.num 0]⟩,
-   ⟨.BT, []⟩, ⟨.Td, [.num 1, .num 2]⟩, ⟨.Tj, [.str [33]]⟩, ⟨.ET, []⟩]
+  [⟨.BT, []⟩, ⟨.Td, [.num 1, .num 2]⟩, ⟨.Tj, [.str [33]]⟩, ⟨.ET, []⟩]
 private def exForm : Form := ⟨some (2, 0, 0, 2, 50, 60), some ⟨[("F1", 0)], []⟩, exFormProg.flatMap Instr.toks⟩
-private def exEnv : Env := ⟨[exFont], [exForm]⟩
-private def exRes : Res := ⟨[("F1", 0)], [("X0", 0)]⟩
+private def exEnv : Env := ⟨[exFont, exFontV], [exForm]⟩
+private def exRes : Res := ⟨[("F1", 0), ("V1", 1)], [("X0", 0)]⟩
 
 /-- `q 1 0 0 1 10 20 cm /X0 Do Q BT /F1 10 Tf 1 0 0 1 100 700 Tm 2 Tc 3 Tw 50 Tz 12 TL (! ) Tj
 /x 5 Td 1 2 (") " [-100 (#)] TJ ET` — a form with a Matrix, then caller text; Tc/Tw/Tz; an
 ill-typed `Td`; the `"` operator; a TJ adjustment. -/
 private def exProg : List Instr :=
-  [⟨.q, []⟩, ⟨.cm, [.num 1, .num 0, .num 0, .num 1, .num 10, .num 20]⟩, ⟨.Do, [.name "X0"]⟩, ⟨.Q, []⟩,
+  [⟨.Tf, [.name "F1", .num 8]⟩, ⟨.rg, [.num 1, .num 0, .num (1/2)]⟩,
+   ⟨.q, []⟩, ⟨.cm, [.num 1, .num 0, .num 0, .num 1, .num 10, .num 20]⟩, ⟨.Do, [.name "X0"]⟩, ⟨.Q, []⟩,
    ⟨.BT, []⟩, ⟨.Tf, [.name "F1", .num 10]⟩, ⟨.Tm, [.num 1, .num 0, .num 0, .num 1, .num 100, .num 700]⟩,
    ⟨.Tc, [.num 2]⟩, ⟨.Tw, [.num 3]⟩, ⟨.Tz, [.num 50]⟩, ⟨.TL, [.num 12]⟩,
    ⟨.Tj, [.str [33, 32]]⟩, ⟨.Td, [.name "x", .num 5]⟩, ⟨.dquote, [.num 1, .num 2, .str [34]]⟩,
@@ -203,7 +298,7 @@ example : (TextModel.runPage exEnv 3 MATRIX_IDENTITY exRes exProg).map List.leng
 
 /-- Its token sequence, split into two streams in the middle of the operands of `cm`, parses back
 to the program (hypothesis `hparse`). -/
-example : parseInstrs [(exProg.flatMap Instr.toks).take 4, (exProg.flatMap Instr.toks).drop 4].flatten []
+example : parseInstrs [(exProg.flatMap Instr.toks).take 11, (exProg.flatMap Instr.toks).drop 11].flatten []
     = (exProg, []) := by decide +kernel
 
 /-- The glyph origins the text model assigns: the form's glyph under `Matrix × cm × CTM`, then the
@@ -211,9 +306,62 @@ caller's line at (100,700) with `tx = (w0·Tfs + Tc + Tw)·Th`, then the next li
 example : (TextModel.runPage exEnv 3 MATRIX_IDENTITY exRes exProg).map (fun l => l.map (fun g => (g.m.2.2.2.2.1, g.m.2.2.2.2.2)))
     = some [(62, 84), (100, 700), (207 / 2, 700), (100, 688), (5201 / 50, 688)] := by decide +kernel
 
+/-- The form's glyph carries the font size 8 and the fill colour it inherited from the page. -/
+example : (TextModel.runPage exEnv 3 MATRIX_IDENTITY exRes exProg).map (fun l => l.head?.map (fun g => (g.size, g.col)))
+    = some (some (16, some [1, 0, 1/2])) := by decide +kernel
+
+/-- Vertical writing with `50 Tz 2 Tc`: `BT /V1 10 Tf 50 Tz 2 Tc <00010003> Tj [100 <0002>] TJ ET` —
+three glyphs going down by `w1·Tfs + Tc` = −8, then −7 (DW2), then the TJ adjustment −1; Tz has no
+effect (hypotheses of `C05_string_displacement_vertical` and of `C05_program` are satisfiable). -/
+example : (TextModel.runPage exEnv 3 MATRIX_IDENTITY exRes
+      [⟨.BT, []⟩, ⟨.Tf, [.name "V1", .num 10]⟩, ⟨.Tz, [.num 50]⟩, ⟨.Tc, [.num 2]⟩, ⟨.Tj, [.str [0, 1, 0, 3]]⟩,
+       ⟨.TJ, [.arr [.num 100, .str [0, 2]]]⟩, ⟨.ET, []⟩]).map
+      (fun l => l.map (fun g => (g.m.2.2.2.2.1, g.m.2.2.2.2.2, g.adv)))
+    = some [(0, 0, -10), (0, -8, -9), (0, -16, -10)] := by decide +kernel
+
+example : exFontV.vertical = true ∧ exFontV.multibyte = true := by decide
+
+/-- A Type 3 font with a skewed FontMatrix `[1/512 0 1/1024 1/1024 0 0]`: width 512 advances by
+`512·(1/512)·Tfs = 8` at size 8, however large the skew term `c` is. -/
+example : (TextModel.runPage ⟨[⟨"VfT1", 65, [512, 1024], 0, -128, some (1/512, 0, 1/1024, 1/1024, 0, 0), false, false, [], 880⟩], []⟩
+      1 MATRIX_IDENTITY ⟨[("T3", 0)], []⟩
+      [⟨.BT, []⟩, ⟨.Tf, [.name "T3", .num 8]⟩, ⟨.Tj, [.str [65, 66]]⟩, ⟨.ET, []⟩]).map
+      (fun l => l.map (fun g => (g.m.2.2.2.2.1, g.adv)))
+    = some [(0, 8), (8, 16)] := by decide +kernel
+
+private def asciiBytes (s : String) : Bytes := s.toList.map (fun c => UInt8.ofNat c.toNat)
+
+/-- Bytes `BT /F1 10 Tf (A) T` + `j 1.5 0 Td [(B) -20] TJ ET` (cut in the middle of the operator `Tj`):
+the front end assembles the program (hypothesis `hlex` of `C05_program_bytes`), the same as for the
+uncut bytes (`C05_split_bytes`). -/
+example : contentToks [asciiBytes "BT /F1 10 Tf (A) T", asciiBytes "j 1.5 0 Td [(B) -20] TJ ET"]
+    = some ([⟨.BT, []⟩, ⟨.Tf, [.name "F1", .num 10]⟩, ⟨.Tj, [.str [65]]⟩, ⟨.Td, [.num (3/2), .num 0]⟩,
+             ⟨.TJ, [.arr [.str [66], .num (-20)]]⟩, ⟨.ET, []⟩].flatMap Instr.toks) := by decide +kernel
+
+/-- After `(A) Tj ` (white space last) the scanner is between tokens (hypothesis of
+`C05_split_at_token_boundary`); after `(A) T` it is not. -/
+example : Between (Lexer.foldBytes Lexer.St.init (asciiBytes "(A) Tj ") 0).1 := by
+  unfold Between; decide +kernel
+
+/-- After `1 0 0 1 5 5 cm` the scanner is in keyword mode (hypothesis of `C05_split_at_white_space`). -/
+example : (Lexer.foldBytes Lexer.St.init (asciiBytes "1 0 0 1 5 5 cm") 0).1.mode = .keyword := by decide +kernel
+
+example : ¬ Between (Lexer.foldBytes Lexer.St.init (asciiBytes "(A) T") 0).1 := by
+  unfold Between; decide +kernel
+
 /-- An instruction with an ill-typed operand that meets the hypotheses of `C05_illtyped`. -/
 example : sig (GS.init MATRIX_IDENTITY) Op.Td = some [Ty.num, Ty.num] ∧
     wellTyped [Ty.num, Ty.num] [Obj.name "x", Obj.num 5] = false := by decide
+
+/-- The example form table is ranked (hypothesis of `C05_budget_suffices`). -/
+example : Ranked exEnv := by
+  intro i fm h
+  match i, h with
+  | 0, h =>
+    simp only [exEnv, List.getElem?_cons_zero, Option.some.injEq] at h
+    subst h
+    exact ⟨⟨[("F1", 0)], []⟩, rfl, by intro n j hj; simp [lookup] at hj⟩
+  | k + 1, h => simp [exEnv] at h
 
 /-- The initial states are related (hypothesis `hR` of `C05_step` is satisfiable). -/
 example : R exEnv (MState.init MATRIX_IDENTITY exRes) ⟨GS.init MATRIX_IDENTITY, [], none, exRes⟩ :=
